@@ -30,6 +30,7 @@ type WorkPlan struct {
 	Requeue  bool    `json:"requeue,omitempty"`   // C06: re-queue a task after its execution panicked
 	RequeueFast bool `json:"requeue_fast,omitempty"` // ... as soon as every task has run once, and expect the re-run promptly
 	NoChan   bool    `json:"no_chan,omitempty"`   // C06: no error reporting channel is set (and stderr reporting is off): only the returned errors are checked
+	Shutdown2 bool   `json:"shutdown2,omitempty"` // a second caller invokes Shutdown while the first call is in progress; the clauses about the return of Shutdown hold for both
 	Warm     bool    `json:"warm,omitempty"`      // C05 with management: all modules are stopped and started once before the workload, with a worker started on each stopped module that outlives the restart
 }
 
@@ -55,7 +56,10 @@ type WItem struct {
 	Panic  int    `json:"panic,omitempty"` // C06 panic kind, 0 none
 	EvMod  int    `json:"ev_mod,omitempty"` // hook: module on which the event is triggered
 	Done   int    `json:"done,omitempty"`   // signal variants: how many times done is called (>=1)
+	Backoff int   `json:"backoff,omitempty"` // svc: backoffLadder index of the restart back-off
 }
+
+var backoffLadder = []time.Duration{time.Second, 20 * time.Second, 50 * time.Second, 0 /* the library's default */}
 
 var drainLadder = []time.Duration{0, time.Millisecond, time.Second, 30 * time.Second, 55 * time.Second, 61 * time.Second, 10 * time.Minute}
 
@@ -179,6 +183,9 @@ func genWork(rng *rand.Rand, tier, prop string) *WorkPlan {
 		if it.Kind == "svc" && rng.IntN(4) == 0 {
 			it.Ret = 3
 		}
+		if it.Kind == "svc" && rng.IntN(2) == 0 {
+			it.Backoff = rng.IntN(len(backoffLadder))
+		}
 		if prop == "C06" && rng.IntN(3) == 0 {
 			it.Panic = 1 + rng.IntN(nPanicKinds)
 			it.PanicTwice = (it.Kind == "svc" || it.Kind == "task" || it.Kind == "tasksched") && rng.IntN(3) == 0
@@ -199,6 +206,7 @@ func genWork(rng *rand.Rand, tier, prop string) *WorkPlan {
 			p.Items[i].AtStart = false
 		}
 	}
+	p.Shutdown2 = prop == "C05" && rng.IntN(5) == 0
 	if p.Mgmt && rng.IntN(2) == 0 {
 		k := 1 + rng.IntN(n)
 		for i := 0; i < k; i++ {
@@ -420,7 +428,7 @@ func (s *workState) launch(k int) {
 	case "runworker":
 		blocking(func() error { return m.RunWorker(name, fn) })
 	case "svc":
-		m.StartServiceWorker(name, time.Second, fn)
+		m.StartServiceWorker(name, backoffLadder[it.Backoff%len(backoffLadder)], fn)
 	case "task":
 		s.tasks[k] = m.NewTask(name, func(ctx context.Context, t *modules.Task) error { return fn(ctx) }).Queue()
 	case "tasksched":
@@ -637,6 +645,27 @@ func execWork(prop string, p *WorkPlan, rc *simkit.RunCtx) {
 	}
 	before := s.lifePanics[2]
 	s.shutdownCalled = true
+	var second chan struct{}
+	if p.Shutdown2 {
+		second = make(chan struct{})
+		go func() {
+			defer close(second)
+			err := modules.Shutdown()
+			rc.H("Shutdown (second caller) err=%v", err != nil)
+			rc.Probe("second-shutdown-caller")
+			if rc.Failed() {
+				return
+			}
+			s.afterStopReturn("Shutdown returned to a second caller")
+			if s.startErr == nil {
+				for i, m := range s.mods {
+					if m.Online() && !rc.Failed() {
+						rc.Fail("C05.online-after-shutdown", "a module was still online (its work not cancelled, its stop routine not invoked) when Shutdown returned", modName(i)+" (second caller)")
+					}
+				}
+			}
+		}()
+	}
 	s.stopErr = modules.Shutdown()
 	s.shutdownReturnedT = simrt.Now()
 	rc.H("Shutdown err=%v", s.stopErr != nil)
@@ -651,6 +680,9 @@ func execWork(prop string, p *WorkPlan, rc *simkit.RunCtx) {
 				rc.Fail("C05.online-after-shutdown", "a module was still online (its work not cancelled, its stop routine not invoked) when Shutdown returned", modName(i))
 			}
 		}
+	}
+	if second != nil {
+		<-second
 	}
 	if p.Post && !rc.Failed() {
 		s.post()
@@ -1075,7 +1107,11 @@ func checkC06State(s *workState, p *WorkPlan, rc *simkit.RunCtx) {
 			// restarted unless the module was stopping when it panicked (or stopped during back-off)
 			if s.itemInv[k] < 2 && !first.SawCancel {
 				sb, stopped := s.stopBeginT[it.Mod]
-				if !stopped || first.EndT+10*time.Second < sb {
+				bo := backoffLadder[it.Backoff%len(backoffLadder)]
+				if bo == 0 {
+					bo = modules.DefaultBackoffDuration
+				}
+				if !stopped || first.EndT+bo+10*time.Second < sb {
 					rc.Fail("C06.svc-not-restarted", "service worker was not restarted after a panic", fmt.Sprintf("item %d", k))
 					return
 				}
